@@ -79,6 +79,7 @@ type heapRun struct {
 	q        *heapq.Queue[Elem]
 	cmp      func(a, b Elem) int
 	descNow  bool
+	custom   bool // the current comparison is one of the custom orders of "reorderTo"
 	held     map[int]Elem // by ID
 	nextID   int
 	step     int
@@ -140,8 +141,24 @@ func (r *heapRun) minimalAmong(e Elem, held map[int]Elem) (Elem, bool) {
 	return Elem{}, true
 }
 
-// extreme returns the largest V under the current order (for "safe" adds).
+// beyondMax returns a value that orders at or after every held element under
+// the current comparison (for "safe" adds that cannot swap).
 func (r *heapRun) beyondMax(delta int) int {
+	if r.custom {
+		for v := -3000; v <= 3000; v++ {
+			ok := true
+			for _, x := range r.held {
+				if r.cmp(Elem{V: v}, x) < 0 {
+					ok = false
+					break
+				}
+			}
+			if ok {
+				return v
+			}
+		}
+		return 3000
+	}
 	first := true
 	var m int
 	for _, x := range r.held {
@@ -297,7 +314,59 @@ func (r *heapRun) callback(e Elem, pos int) {
 	r.moves[e.ID]++
 }
 
+// customOrder returns one of the less regular total preorders used by the
+// "reorderTo" op: by distance from a pivot, by (value mod 3, value), or "the
+// current front stays in front and everything else is reversed".
+func (r *heapRun) customOrder(sel int) func(a, b Elem) int {
+	c3 := func(x, y int) int {
+		switch {
+		case x < y:
+			return -1
+		case x > y:
+			return 1
+		}
+		return 0
+	}
+	abs := func(x int) int {
+		if x < 0 {
+			return -x
+		}
+		return x
+	}
+	mod3 := func(x int) int { return ((x % 3) + 3) % 3 }
+	switch sel % 3 {
+	case 0:
+		p := sel/3%9 - 4
+		return func(a, b Elem) int { return c3(abs(a.V-p), abs(b.V-p)) }
+	case 1:
+		return func(a, b Elem) int {
+			if c := c3(mod3(a.V), mod3(b.V)); c != 0 {
+				return c
+			}
+			return c3(a.V, b.V)
+		}
+	}
+	f, any := 0, false
+	if top, ok := r.q.Peek(0); ok {
+		f, any = top.V, true
+	}
+	return func(a, b Elem) int {
+		if any {
+			switch {
+			case a.V == f && b.V == f:
+				return 0
+			case a.V == f:
+				return -1
+			case b.V == f:
+				return 1
+			}
+		}
+		return c3(b.V, a.V)
+	}
+}
+
 func (r *heapRun) setCmp(descending bool) {
+	r.custom = false
 	r.descNow = descending
 	switch {
 	case descending && r.c.Mag:
@@ -537,8 +606,13 @@ func (r *heapRun) apply(op HOp) string {
 			r.pendingDisturb, r.popsSinceDisturb = true, 0
 		}
 		return ""
-	case "reorder":
-		r.setCmp(!r.descNow)
+	case "reorder", "reorderTo":
+		if op.Kind == "reorderTo" {
+			r.cmp = r.customOrder(op.A)
+			r.custom = true
+		} else {
+			r.setCmp(!r.descNow)
+		}
 		r.q.Reorder(r.cmp)
 		for _, d := range r.devs {
 			d.Cmp = r.cmp
